@@ -298,11 +298,16 @@ func (l *Logger) UpdateContext(update func(c Context) Context) {
 	if l == disabledLogger {
 		return
 	}
-	if cap(l.context) == 0 {
-		l.context = make([]byte, 0, 500)
-	}
-	if len(l.context) == 0 {
+	// Loggers are values: a copy of l (as returned by Level, Sample, Hook or
+	// Output) shares the backing array of the context, and so does a copy that
+	// is updated later. Appending in place would make them overwrite each
+	// other's fields: like With, update a private copy of the context.
+	context := l.context
+	l.context = make([]byte, 0, 500)
+	if len(context) == 0 {
 		l.context = enc.AppendBeginMarker(l.context)
+	} else {
+		l.context = append(l.context, context...)
 	}
 	c := update(Context{*l})
 	l.context = c.l.context
